@@ -11,10 +11,10 @@ SPEC = {
               rule="inputs: files written by the real library (0..300 counters, names 1..4096 bytes incl. NUL/newline/UTF-8/"
                    "stack shapes, twin names) 12%; files of an independent encoder (several policies) 12%; structured "
                    "mutations of both (header length incl. values that put the table at the end of the input, limit, bucket "
-                   "heads, record length, next links incl. self-cycle / 2-cycle / into header / past EOF / unaligned, "
+                   "heads, record length, next links incl. self-cycle / 2-cycle / into header / past EOF / off a record by 4, by odd amounts, by 8, "
                    "truncation at 32-byte boundaries, prefix, metadata, extension, bit flips; one or two per file) 50%; "
                    "hand-made regression inputs (header length < 32, cycles through compressed stack names, long chains, "
-                   "records ending at EOF, unaligned records, duplicate raw names) 14%; random bytes 12%. Real Parse under "
+                   "records ending at EOF, record offsets of every alignment, duplicate raw names) 14%; random bytes 12%. Real Parse under "
                    "a watchdog (panic recovered, 3 s limit), run twice with different bytes after the input. "
                    "distinct = distinct case lines; every case compares the answer with the model and evaluates the "
                    "totality / faithfulness / soundness / determinism oracles"),
@@ -24,22 +24,22 @@ SPEC = {
                  "correspondence of the extracted model on generated, mutated and random inputs",
     "level_text": "Machine-checked theorems over the Gallina model of Parse/entryAt/load32/DecodeStack: for every byte list "
                   "the result is an error or a result and the model's fuel (len/32+2 per bucket) is never used up; entryAt "
-                  "with uint32 arithmetic and slice bounds spelled out cannot panic on inputs below 4 GiB; every returned "
-                  "pair is a linked record (arbitrary bytes); on every well-formed file Parse returns exactly what the "
-                  "independent reader of the documented layout returns, except in the class twin_clash where it returns "
-                  "corrupt (proved in general and with a library-written witness); outside the class oob_head the answer "
-                  "does not depend on bytes after the input, inside it does (witness). The model is tied to the code by "
-                  "differential execution on library-written, independently encoded, mutated and random inputs.",
-    "level_note": "Two classes where the real code violates the property are known findings (KNOWN_FINDINGS.txt): "
-                  "parse-oob-read (load32 reads up to 3 bytes past the input) and parse-expanded-twin (duplicate test on the "
-                  "raw name against expanded names rejects a well-formed library-written file). Not modelled: unaligned "
-                  "64-bit atomic loads, which panic on 32-bit platforms for a record offset that is not a multiple of 8 "
-                  "(observed by hand with GOARCH=386; amd64 accepts them, and so does the model); inputs of 4 GiB or more. "
-                  "strings.Split/Cut/IndexByte and map assignment are modelled by list functions (sampled by the suite). "
-                  "ReadMapped, the CLI printers and the viewer are not covered.",
+                  "with uint32 arithmetic and slice bounds spelled out cannot panic on inputs below 4 GiB; the result is "
+                  "the list of (expanded name, value) of linked records with pairwise different stored names (arbitrary "
+                  "bytes; a repeated stored name is answered corrupt); on EVERY well-formed file Parse returns exactly what "
+                  "the independent reader of the documented layout returns (equal expanded names: the later record in "
+                  "bucket order wins); for every input the answer does not depend on bytes after the input. The model is "
+                  "tied to the code by differential execution on library-written, independently encoded, mutated and "
+                  "random inputs.",
+    "level_note": "The three defects found while building this check are fixed in /repo (219cb21 load32 bound, 6b4a27d "
+                  "duplicate test on stored names, a01a83c 8-byte alignment of record offsets); their oracle classes "
+                  "parse-oob-read and parse-expanded-twin are ordinary violation classes now. Record offsets that are not "
+                  "multiples of 8 are refused by entryAt and by the model; on amd64 a revert of that test shows only as a "
+                  "model/implementation difference (the panic needs a 32-bit platform). Inputs of 4 GiB or more are not "
+                  "covered. strings.Split/Cut/IndexByte and map assignment are modelled by list functions (sampled by the "
+                  "suite). ReadMapped, the CLI printers and the viewer are not covered.",
     "assumptions": [
         "inputs are shorter than 4 GiB (uint32 offset arithmetic in entryAt does not wrap)",
-        "64-bit platform semantics for unaligned atomic loads (amd64: allowed)",
         "the result maps are compared as maps: the model's assignment lists with the last value per key",
     ],
     "trusted_base": [],
